@@ -474,19 +474,16 @@ def merge_projections(arr):
         return arr[0]
     # a plain list: the arguments may themselves be lists (np.copy would try to build one array of them)
     sparse_fa = list(arr[0])
-    i = 0
-    k = 1
-    while i < len(sparse_fa) and k < len(arr):
-        fa = arr[k]
+    # each later argument list addresses the holes that are still open, in order; an empty slot in it
+    # (None) leaves the corresponding hole open for a later step
+    for fa in arr[1:]:
         j = 0
-        while i < len(sparse_fa) and j < len(fa):
+        for i in range(len(sparse_fa)):
+            if j >= len(fa):
+                break
             if sparse_fa[i] is None:
                 sparse_fa[i] = fa[j]
                 j += 1
-                while j < len(fa) and safe_eq(fa[j], None):
-                    j += 1
-            i += 1
-        k += 1
     return sparse_fa
 
 
